@@ -67,18 +67,24 @@ fn gen_node(cst: &Cst<'_>, node_ref: NodeRef, items: &mut PrintItems) {
             match token {
                 Token::LineComment | Token::DocComment => {
                     space_before_comment(cst, &span, items, false);
-                    items.push_string(txt[..txt.len() - 1].to_string());
+                    push_text(&txt[..txt.len() - 1], items);
                     items.push_signal(Signal::ExpectNewLine);
                 }
                 Token::BlockComment => {
                     space_before_comment(cst, &span, items, false);
-                    items.push_string(txt.to_string());
+                    push_text(txt, items);
                 }
                 Token::Whitespace => {}
-                _ => items.push_string(txt.to_string()),
+                _ => push_text(txt, items),
             }
         }
     }
+}
+
+/// Source text may contain tabs (comments, symbols) and line breaks (block comments), which must
+/// not be sent to the printer inside a string.
+fn push_text(txt: &str, items: &mut PrintItems) {
+    items.extend(ir_helpers::gen_from_raw_string(txt));
 }
 
 fn indent(width: usize, items: &mut PrintItems) {
@@ -260,7 +266,7 @@ fn gen_file(cst: &Cst<'_>, node_ref: NodeRef, items: &mut PrintItems) {
                 let span = cst.span(child_node_ref);
                 let txt = cst.span_text(idx);
                 space_before_comment(cst, &span, items, true);
-                items.push_string(txt[..txt.len() - 1].to_string());
+                push_text(&txt[..txt.len() - 1], items);
                 items.push_signal(Signal::NewLine);
                 line_start = true;
             }
@@ -268,7 +274,7 @@ fn gen_file(cst: &Cst<'_>, node_ref: NodeRef, items: &mut PrintItems) {
                 let span = cst.span(child_node_ref);
                 let txt = cst.span_text(idx);
                 space_before_comment(cst, &span, items, true);
-                items.push_string(txt.to_string());
+                push_text(txt, items);
                 items.push_signal(Signal::SpaceIfNotTrailing);
                 line_start = false;
             }
